@@ -74,7 +74,7 @@ def generate(rng, run, tier):
         k = 30 if tier == "quick" else 60
         return {"mode": "subproc", "workloads": [dict(gen_workload(rng, True), kind="ser") for _ in range(k)]}
     mode = "coop" if rng.random() < 0.7 else "threads"
-    n = rng.choice([2, 2, 3, 4])
+    n = rng.choice([2, 2, 3, 4] + ([5, 6] if tier == "thorough" else []))
     wl = [gen_workload(rng) for _ in range(n)]
     share = rng.random() < 0.4
     if share and n >= 2:
